@@ -288,7 +288,15 @@ float_32
     : NUM_INT
         { $$ = float32(parseInt($1)) }
     | NUM_FLOAT
-        { $$ = parseFloat32($1) }
+        {
+            f, err := tryParseFloat32($1)
+            if err != nil {
+                mmlex.(*mmLexInfo).fail($<loc>1, $1,
+                    "value out of range for a 32-bit float")
+                return 1
+            }
+            $$ = f
+        }
     ;
 
 stage_retain
